@@ -79,10 +79,26 @@ func TestVerif_C17_e2e(t *testing.T) {
 		switch r.Intn(6) {
 		case 0:
 			clientCT = verifh.Pick(r, []string{"application/json", "text/xml", "text/plain", "application/soap+xml", "application/vnd.api+json; charset=utf-8", "Text/XML"})
-			c.SetCommonContentType(clientCT)
+			switch (i / 5) % 3 {
+			case 0:
+				c.SetCommonContentType(clientCT)
+			case 1:
+				c.SetCommonHeader("content-type", clientCT)
+			default:
+				c.SetCommonHeaders(map[string]string{"Content-Type": clientCT})
+			}
+			s.Count("client-preset-route-" + strconv.Itoa((i/5)%3))
 		case 1:
 			reqCT = verifh.Pick(r, []string{"application/json", "application/xml", "text/plain", "application/XML", "application/atom+xml; charset=utf-8"})
-			req.SetContentType(reqCT)
+			switch (i / 3) % 3 {
+			case 0:
+				req.SetContentType(reqCT)
+			case 1:
+				req.SetHeader("content-type", reqCT)
+			default:
+				req.SetHeaders(map[string]string{"Content-Type": reqCT})
+			}
+			s.Count("request-preset-route-" + strconv.Itoa((i/3)%3))
 		}
 		exoticField := "" // "" | "ctl" | "empty": a multipart field name outside the plain class
 		genOrdered := func(maxPairs int, mp bool) {
